@@ -10,58 +10,6 @@ From J5V.proofs Require Import StrcaseProofs EntityProofs EntitySpec EntitySpecP
 Import ListNotations.
 Local Open Scope N_scope.
 
-(* the type the schema language gives an item: a scalar / well-known message / reference by name *)
-Definition sp_item_type (i : ikind) : otype :=
-  match i with
-  | IScalar pt k => TScalar pt k
-  | IExt tn k => TExt tn k
-  | IObject n => TObject [] n
-  | IOneof n => TOneof [] n
-  | IEnum n => TEnum [] n
-  end.
-(* an inline (anonymous) schema becomes a type nested in the message, named Camel(field name);
-   as the value of a map it sits inside the map type *)
-Definition sp_inline_type (container : N) (field : bytes) (k : N) : otype :=
-  if container =? 2 then TMap (TNested (to_camel field) k) else TNested (to_camel field) k.
-Definition sp_declared_type (u : ufield) : otype :=
-  match uf_kind u with
-  | KScalar pt k => TScalar pt k
-  | KObject n => TObject [] n
-  | KOneof n => TOneof [] n
-  | KEnum n => TEnum [] n
-  | KKey _ _ _ => TScalar 9 (bs "key")          (* a string carrying the key annotation *)
-  | KExt tn k => TExt tn k
-  | KArray i => sp_item_type i
-  | KMap v => TMap (sp_item_type v)
-  | KInlineObject _ => sp_inline_type (uf_container u) (uf_name u) 0
-  | KInlineOneof _ => sp_inline_type (uf_container u) (uf_name u) 1
-  | KInlineEnum _ => sp_inline_type (uf_container u) (uf_name u) 2
-  | KInlineTree k _ => sp_inline_type (uf_container u) (uf_name u) k
-  end.
-Definition sp_repeated (u : ufield) : bool :=
-  match uf_kind u with
-  | KArray _ | KMap _ => true
-  | KInlineObject _ | KInlineOneof _ | KInlineEnum _ | KInlineTree _ _ => negb (uf_container u =? 0)
-  | _ => false
-  end.
-Definition sp_key_flags (u : ufield) : bool * option bytes * option (bytes * bytes) :=
-  match uf_kind u with
-  | KKey p fo te => (p, te, fo)
-  | _ => (false, None, None)
-  end.
-
-(* a property of a generated message IS the declared field: name, type, repeated, key flags
-   (primary / tenant / foreign key), never flattened *)
-Definition field_as_declared (u : ufield) (f : ofield) : Prop :=
-  f_json f = uf_name u /\ f_type f = sp_declared_type u /\ f_repeated f = sp_repeated u
-  /\ (f_primary f, f_tenant f, f_foreign f) = sp_key_flags u /\ f_flatten f = false.
-
-Definition spec_field_types (e : entity) (cs : list component) : Prop :=
-  exists mk md,
-    has_msg cs 0 mk /\ m_name mk = sp_name e "Keys" /\ has_msg cs 0 md /\ m_name md = sp_name e "Data"
-    /\ Forall2 (fun k f => field_as_declared (k_def k) f) (e_keys e) (m_fields mk)
-    /\ Forall2 field_as_declared (e_data e) (m_fields md).
-
 Lemma of_ufield_as_declared : forall u, field_as_declared u (of_ufield u).
 Proof.
   intros u. unfold field_as_declared, of_ufield, sp_declared_type, sp_repeated, sp_key_flags, sp_inline_type, inline_type.
@@ -86,6 +34,55 @@ Theorem field_types_as_declared : forall e cs, compile e = Ok cs -> spec_field_t
 Proof.
   intros e cs H. destruct (compile_inv e cs H) as [_ [_ [Hl [fl [_ [-> _]]]]]].
   apply spec_field_types_holds.
+Qed.
+
+(* ---- members: events, command methods, summaries ------------------------------------------------------ *)
+Lemma Forall2_as_declared : forall us, Forall2 field_as_declared us (map of_ufield us).
+Proof. intros us. apply Forall2_map_r. intros u _. apply of_ufield_as_declared. Qed.
+
+Lemma in_expand_command : forall e fl c x, In c (e_commands e) -> In x (command_components e c) -> In x (expand_with e fl).
+Proof.
+  intros e fl c x Hc Hx. unfold expand_with. apply in_or_app. right. apply in_or_app. right.
+  apply in_or_app. left. apply in_flat_map. exists c. auto.
+Qed.
+
+Theorem spec_member_field_types_holds : forall e fl, spec_member_field_types e (expand_with e fl).
+Proof.
+  intros e fl. split; [|split; [|split]].
+  - exists (event_type_msg e). unfold has_msg. split; [apply in_expand_head; cbn; auto 10|].
+    cbn [event_type_msg m_name m_nested]. unfold event_type_name. rewrite cn_event_type. split; [reflexivity|].
+    apply (Forall2_map_r _ (fun ev => (ev_name ev, map of_ufield (ev_fields ev)))).
+    intros ev _. cbn [fst snd]. split; [reflexivity|apply Forall2_as_declared].
+  - intros c md Hc Hmd.
+    assert (Hin : forall x, In x (fst (method_components
+                     (match c_base c with Some b => [47] ++ base_url e ++ [47] ++ b | None => [47] ++ base_url e ++ bs "/c" end)
+                     (md_name md) (md_verb md) (md_path md) (map of_ufield (md_request md))
+                     (option_map (map of_ufield) (md_response md)) 0)) -> In x (expand_with e fl)).
+    { intros x Hx. apply (in_expand_command e fl c x Hc). unfold command_components, service_components.
+      apply in_or_app. left. apply in_flat_map. eexists. split; [apply in_map; exact Hmd|exact Hx]. }
+    split.
+    + eexists. split; [apply Hin; cbn [method_components fst]; left; reflexivity|].
+      cbn [m_name m_fields]. split; [reflexivity|apply Forall2_as_declared].
+    + intros r Hr. eexists. split.
+      * apply Hin. rewrite Hr. cbn [method_components fst option_map]. right. left. reflexivity.
+      * cbn [m_name m_fields]. split; [reflexivity|apply Forall2_as_declared].
+  - intros s Hs. eexists. eexists. split.
+    + apply (in_expand_summary e fl s _ Hs). unfold summary_components, topic_components. left. reflexivity.
+    + cbn [m_name m_fields tl hd_error].
+      assert (E : summary_topic_name e s = sp_summary_name e s).
+      { unfold summary_topic_name, sp_summary_name, camel_name, sp_camel. destruct (s_name s); reflexivity. }
+      rewrite E. split; [reflexivity|]. split; [apply Forall2_as_declared|]. split; reflexivity.
+  - intros s Hs.
+    assert (Hin : In (schema_component s) (expand_with e fl)).
+    { unfold expand_with. do 5 (apply in_or_app; right). apply in_map. exact Hs. }
+    destruct s as [n fs|n fs|n os]; [| |exact I]; cbn [schema_component] in Hin;
+      (eexists; split; [exact Hin|]; cbn [m_name m_oneof m_fields]; repeat split; apply Forall2_as_declared).
+Qed.
+
+Theorem member_field_types_as_declared : forall e cs, compile e = Ok cs -> spec_member_field_types e cs.
+Proof.
+  intros e cs H. destruct (compile_inv e cs H) as [_ [_ [Hl [fl [_ [-> _]]]]]].
+  apply spec_member_field_types_holds.
 Qed.
 
 (* non-vacuity: a key, an array of integers, a map of object references, an inline object *)
